@@ -11,7 +11,7 @@
    [current_shape]).  A run returns the trace of the calls that reached the
    destination / source; "the writer / reader failed at some point" is
    [Exists wfailed trace] / [Exists hard trace].  Outcome [Hang] only arises when
-   the model's fuel runs out, or from the Unmarshal epilogue (see below). *)
+   the model's fuel runs out (or a reader answers (0, nil) for ever). *)
 From CE Require Import Model.IoFail Proofs.IoFailProofs.
 Open Scope N_scope.
 
@@ -53,118 +53,79 @@ Proof. exact write_failure_schedule_reported. Qed.
 Print Assumptions C29_write_failure_at_every_index.
 
 (* ------------------------------------------------------------------------- *)
-(* Read side, parts that hold in full. *)
+(* Read side. *)
 
-(* UnmarshalCTE / cte Decoder.Decode on the caller's reader (io.Copy). *)
+(* UnmarshalCBE / cbe Unmarshaler.Unmarshal / cbe Decoder.Decode on the caller's
+   reader: EVERY reader (data together with the error, transient or not).  All
+   reads go through Reader.Read, which remembers an error that arrives with data
+   and reports it at the next call (fix e4074d6); the decoder only stops at EOF.
+   ([Hang]: the model's fuel ran out before the next Read.) *)
+Theorem C29_read_cbe_failure_reported :
+  forall (S : Type) (step : S -> N -> S * rres) (sh : shape) (D : Type) (dnext : D -> action)
+         (dfeed : D -> bytes -> D) (dfinal : D -> bool) (unm : bool) (fuel : nat) (s0 : S) (d : D) u' o,
+    all_checked_but_uleb sh = true ->
+    cbe_entry S step sh D dnext dfeed dfinal unm false fuel (rd0 s0) d = (u', o) ->
+    Exists hard (rs_tr u') -> o <> Ok tt /\ o <> Panic.
+Proof. exact read_cbe_full. Qed.
+Print Assumptions C29_read_cbe_failure_reported.
+
+(* UnmarshalCTE / cte Unmarshaler.Unmarshal / cte Decoder.Decode on the caller's reader (io.Copy): every reader. *)
 Theorem C29_read_cte_failure_reported :
   forall (S : Type) (step : S -> N -> S * rres) (sh : shape) (parse : bytes -> bool)
          (unm : bool) (fuel : nat) (s0 : S) st' o,
     all_checked_but_uleb sh = true ->
-    (if unm then cte_unmarshal S step sh parse true false fuel (rd0 s0)
+    (if unm then cte_unmarshal S step sh parse false fuel (rd0 s0)
      else cte_decode S step sh parse false fuel (rd0 s0)) = (st', o) ->
     Exists hard (rs_tr st') -> o = Err.
 Proof. exact read_cte_full. Qed.
 Print Assumptions C29_read_cte_failure_reported.
 
-(* UnmarshalCE / universal Decode on a CBE document (the decoder reads through
-   bufio.Reader.Read, which never hands data and error over together): every
-   reader.  ([Hang]: the model's fuel ran out before the buffered bytes were
-   consumed.) *)
+(* UnmarshalCE / universal Decode on a CBE document (bufio.Reader.Read below
+   Reader.Read): every reader. *)
 Theorem C29_read_universal_cbe_failure_reported :
   forall (S : Type) (step : S -> N -> S * rres) (sh : shape) (D : Type) (dnext : D -> action)
          (dfeed : D -> bytes -> D) (dfinal : D -> bool) (parse : bytes -> bool)
          (unm : bool) (fuel : nat) (s0 : S) (d : D) (x : N) u' o,
     all_checked_but_uleb sh = true ->
     first_byte S step s0 = Some x -> choose x = UCbe ->
-    universal S step sh D dnext dfeed dfinal parse unm true false fuel (rd0 s0) d = (u', o) ->
+    universal S step sh D dnext dfeed dfinal parse unm false fuel (rd0 s0) d = (u', o) ->
     Exists hard (rs_tr u') -> o <> Ok tt /\ o <> Panic.
 Proof. exact read_universal_cbe. Qed.
 Print Assumptions C29_read_universal_cbe_failure_reported.
 
-(* The design note's theorem: if EVERY site is Checked (which the extraction of
-   the current sources does not give: the ULEB128 continuation read is Weak),
-   the CBE entry points report every failure of every reader. *)
-Theorem C29_read_cbe_failure_reported_if_all_checked :
-  forall (S : Type) (step : S -> N -> S * rres) (sh : shape) (D : Type) (dnext : D -> action)
-         (dfeed : D -> bytes -> D) (dfinal : D -> bool) (unm : bool) (fuel : nat) (s0 : S) (d : D) st' o,
-    all_checked sh = true ->
-    (if unm then cbe_unmarshal S step sh D dnext dfeed dfinal true false fuel (rd0 s0) d
-     else cbe_decode S step sh D dnext dfeed dfinal false fuel (rd0 s0) d) = (st', o) ->
-    Exists hard (rs_tr st') -> o = Err.
-Proof. exact read_cbe_full_if_checked. Qed.
-Print Assumptions C29_read_cbe_failure_reported_if_all_checked.
-
 (* ------------------------------------------------------------------------- *)
-(* The full property on the read side for the current sources, and where it fails. *)
+(* The one place where the full property fails for the current sources:
+   UnmarshalCE / universal Decode on a CTE document. *)
 
-Definition C29_full : Prop :=
-  (* UnmarshalCBE / cbe Decode on the caller's reader *)
-  read_cbe_full_stmt /\
-  (* UnmarshalCE / universal Decode, any document *)
-  read_universal_full_stmt /\
-  (* Unmarshal returns the error whatever state the builder is in *)
-  unmarshal_returns_stmt.
+Definition C29_full : Prop := read_universal_full_stmt.
 
-(* Defect 1 (go-uleb128 DecodeWithByteBuffer): a Read that returns a ULEB128
-   continuation byte TOGETHER WITH an error, followed by a successful Read, has
-   its error overwritten.  Witness: document 81 80 80 00 01, third Read returns
-   (1, err): cbe Decode returns success. *)
-Theorem C29_read_cbe_full_refuted : ~ read_cbe_full_stmt.
-Proof. exact read_cbe_full_refuted. Qed.
-Print Assumptions C29_read_cbe_full_refuted.
-
-(* Defect 2 (bufio.Reader.WriteTo under io.Copy in cte Decode, reached from
+(* Defect (bufio.Reader.WriteTo under io.Copy in cte Decode, reached only from
    UnmarshalCE / universal Decode): fill() is called with an error pending and a
    later io.EOF overwrites it.  Witness: document "c0 1", first Read returns
    (4, err): UnmarshalCE returns success. *)
-Theorem C29_read_universal_full_refuted : ~ read_universal_full_stmt.
+Theorem C29_read_universal_full_refuted : ~ C29_full.
 Proof. exact read_universal_full_refuted. Qed.
 Print Assumptions C29_read_universal_full_refuted.
 
-(* Defect 3 (builder ArtificiallyTerminate, run by Unmarshal before it returns
-   the decoder's error): when that epilogue does not return, neither does the
-   error. *)
-Theorem C29_unmarshal_returns_refuted : ~ unmarshal_returns_stmt.
-Proof. exact unmarshal_returns_refuted. Qed.
-Print Assumptions C29_unmarshal_returns_refuted.
-
-Theorem C29_full_refuted : ~ C29_full.
-Proof. exact full_refuted. Qed.
-Print Assumptions C29_full_refuted.
-
-(* What holds for the current sources.  Excluded are exactly: (1) [fatal] leaves
-   out a failure that arrives together with data at the ULEB128 continuation
-   read; (2) [clean_source]: readers that never return data together with a
-   non-EOF error (for CTE documents through the universal entry points; CBE
-   documents need no such assumption, see above); (3) onerr = true: the
-   Unmarshal epilogue returns. *)
-Theorem C29_read_cbe_partial :
-  forall (S : Type) (step : S -> N -> S * rres) (sh : shape) (D : Type) (dnext : D -> action)
-         (dfeed : D -> bytes -> D) (dfinal : D -> bool) (unm : bool) (fuel : nat) (s0 : S) (d : D) st' o,
-    all_checked_but_uleb sh = true ->
-    (if unm then cbe_unmarshal S step sh D dnext dfeed dfinal true false fuel (rd0 s0) d
-     else cbe_decode S step sh D dnext dfeed dfinal false fuel (rd0 s0) d) = (st', o) ->
-    Exists fatal (rs_tr st') -> o = Err.
-Proof. exact read_cbe_partial. Qed.
-Print Assumptions C29_read_cbe_partial.
-
+(* What holds there: readers that never return data together with a non-EOF
+   error ([clean_source]); CBE documents need no such assumption (above). *)
 Theorem C29_read_universal_partial :
   forall (S : Type) (step : S -> N -> S * rres) (sh : shape) (D : Type) (dnext : D -> action)
          (dfeed : D -> bytes -> D) (dfinal : D -> bool) (parse : bytes -> bool)
          (unm : bool) (fuel : nat) (s0 : S) (d : D) u' o,
     all_checked_but_uleb sh = true ->
     clean_source S step ->
-    universal S step sh D dnext dfeed dfinal parse unm true false fuel (rd0 s0) d = (u', o) ->
+    universal S step sh D dnext dfeed dfinal parse unm false fuel (rd0 s0) d = (u', o) ->
     Exists hard (rs_tr u') -> o <> Ok tt /\ o <> Panic.
 Proof. exact read_universal_clean. Qed.
 Print Assumptions C29_read_universal_partial.
 
 (* ------------------------------------------------------------------------- *)
-(* Non-vacuity *)
+(* Non-vacuity, and the pinned witnesses of the two repaired defects *)
 
 (* the hypothesis on the shape is what the current sources give *)
-Example C29_shape_hypothesis_holds : all_checked_but_uleb current_shape = true /\ all_checked current_shape = false.
-Proof. vm_compute. split; reflexivity. Qed.
+Example C29_shape_hypothesis_holds : all_checked_but_uleb current_shape = true.
+Proof. vm_compute. reflexivity. Qed.
 
 (* and it is needed: with one unchecked write site a failure is swallowed *)
 Example C29_unchecked_site_swallows :
@@ -172,7 +133,7 @@ Example C29_unchecked_site_swallows :
          {| ws_w := wdest0; ws_tr := [] |} [[{| lw_site := LBytes; lw_len := 1 |}]]) = Ok tt.
 Proof. exact unchecked_site_witness. Qed.
 
-(* a marshal with three events, failing at its third call; the same without failure *)
+(* a marshal with three events, failing at its third call; the same without failure; the encoder API after 6 bytes *)
 Example C29_write_example :
   let evs := [[{| lw_site := LBytes; lw_len := 1 |}]; [{| lw_site := LBytes; lw_len := 1 |}];
               [{| lw_site := LStringNotLF; lw_len := 5 |}; {| lw_site := LBytes; lw_len := 2 |}]] in
@@ -184,15 +145,23 @@ Example C29_write_example :
   /\ snd (wmodel WEncoder WFcbe false false evs {| wsc_calls := []; wsc_limit := Some 6; wsc_sticky := false |}) = OPanicAt 2.
 Proof. vm_compute. repeat split. Qed.
 
-(* a CBE decode (document 81 00 01) failing cleanly at its second Read: reported; the trace has the fatal event *)
-Example C29_read_example :
-  let '(st, o) := cbe_decode rsrc (sched_rstep {| rsc_chunk := 0; rsc_faults := [{| f_call := 1; f_dirty := false |}]; rsc_sticky := false |})
-                    current_shape (list prim) script_next script_feed (fun _ => true) false 100
-                    (rd0 (rsrc0 [129; 0; 1])) [PUint8; PUleb; PTypeOrEOF; PTypeOrEOF] in
-  o = Err /\ Exists fatal (rs_tr st).
-Proof. vm_compute. split; [reflexivity|]. left. split; [reflexivity|]. intros [H _]. discriminate. Qed.
+(* formerly C29/read/cbe/swallowed/RUlebCont/data-with-error-transient: document 81 80 80 00 01, the third Read
+   returns (1, err) and later Reads would succeed — now reported, after exactly three calls on the reader *)
+Example C29_pinned_uleb_data_with_error :
+  forall unm : bool,
+  rmodel (if unm then RECbeUnmarshal else RECbeDecode) false wit_cbe_doc wit_cbe_script true (wit_sched 2)
+  = ([{| re_site := RCbeRead; re_len := 1; re_res := {| rr_data := [129]; rr_err := ENone |} |};
+      {| re_site := RCbeRead; re_len := 1; re_res := {| rr_data := [128]; rr_err := ENone |} |};
+      {| re_site := RCbeRead; re_len := 1; re_res := {| rr_data := [128]; rr_err := EFail |} |}], OErr).
+Proof. exact cbe_data_with_error_witness. Qed.
 
-(* the scheduled reader without dirty faults is a clean source *)
+(* formerly C29/read/cbe/hang-after-failure/artificial-termination: document 81 00 97 01 02 03 failing at call 3 *)
+Example C29_pinned_edge_failure_returns :
+  snd (rmodel RECbeUnmarshal false wit_edge_doc wit_edge_script true
+         {| rsc_chunk := 0; rsc_faults := [{| f_call := 3; f_dirty := false |}]; rsc_sticky := false |}) = OErr.
+Proof. exact cbe_edge_witness. Qed.
+
+(* the scheduled reader without data-with-error faults is a clean source *)
 Example C29_clean_source_exists :
   clean_source rsrc (sched_rstep {| rsc_chunk := 1; rsc_faults := [{| f_call := 3; f_dirty := false |}]; rsc_sticky := true |}).
 Proof.
@@ -206,7 +175,6 @@ Qed.
 
 (* PassThroughPanics (a debugging switch) lets the panic out on purpose: the theorems are for pass = false *)
 Example C29_pass_through_panics :
-  snd (cbe_decode rsrc (sched_rstep {| rsc_chunk := 0; rsc_faults := [{| f_call := 1; f_dirty := false |}]; rsc_sticky := false |})
-         current_shape (list prim) script_next script_feed (fun _ => true) true 100
-         (rd0 (rsrc0 wit_cbe_doc)) wit_cbe_script) = Panic.
+  snd (rmodel RECbeDecode true wit_cbe_doc wit_cbe_script true
+         {| rsc_chunk := 0; rsc_faults := [{| f_call := 1; f_dirty := false |}]; rsc_sticky := false |}) = OPanic.
 Proof. exact pass_through_witness. Qed.
